@@ -550,6 +550,209 @@ theorem spanRow_F_gt (k : Int) (hk : col + cols < k) (hkn : k < n) :
     · rw [if_pos ⟨by omega, x⟩, if_neg (by omega), if_neg (fun y => hh ⟨x, y⟩)]
     · rw [if_neg (fun y => x y.2)]
 
+include h h0 hc he in
+/-- **`make_span` preserves the run structure** (once the caller has put a non-CONT state into the returned cell). -/
+theorem spanRow_wf (hv1 : v.state ≠ .cont) (hv2 : v.cols = cols)
+    (hv3 : (v.state = .line ∨ v.state = .char) → cols = 1) : RowWF n (spanRow n row col cols v) := by
+  have hv1' : cI v = 0 := cI_zero.2 hv1
+  have hv3' : lI v = 1 → cols = 1 := fun hh => hv3 (lI_one.1 hh)
+  have Flt := spanRow_F_lt v h h0 hc he
+  have Fmid := spanRow_F_mid v h h0 hc he
+  have Fend := spanRow_F_end v h h0 hc he
+  have Fgt := spanRow_F_gt v h h0 hc he
+  have Fcol : (spanRow n row col cols v).get col = v := spanRow_col v
+  have W := h.facts
+  have Wr := h.runfact
+  apply RowWF.of_arith
+  · -- CONT cells: the start lies to the left, is a start, and reaches the cell
+    intro k hk0 hkn hk
+    have Wk := W k hk0 hkn
+    have ik := cI_lI (row.get k)
+    by_cases r1 : k < col
+    · obtain ⟨f1, _, f3, f4⟩ := Flt k hk0 r1
+      rw [f1] at hk
+      by_cases hcond : cI (row.get col) = 1 ∧ k = (row.get col).cols
+      · have := ((W col h0 (by omega)).1 hcond.1).2.2.1
+        rw [← hcond.2] at this; omega
+      · rw [f4 hcond]
+        have Ft := Flt (row.get k).cols
+        omega
+    · by_cases r2 : k = col
+      · rw [r2, Fcol] at hk; omega
+      · by_cases r3 : k < col + cols
+        · obtain ⟨_, _, f3⟩ := Fmid k (by omega) r3
+          rw [f3, Fcol]; omega
+        · by_cases r4 : k = col + cols
+          · rw [r4] at hk hkn; have := (Fend hkn).1; omega
+          · obtain ⟨f1, _, f3, f4⟩ := Fgt k (by omega) hkn
+            rw [f1] at hk
+            by_cases sp : cI (row.get (col + cols)) = 1 ∧ k < (row.get (col + cols)).cols + (row.get (row.get (col + cols)).cols).cols
+            · rw [f3 sp]
+              have Fe := Fend (by omega)
+              omega
+            · rw [f4 sp]
+              have ⟨t0, t1, t2, t3⟩ := Wk.1 hk
+              by_cases q1 : (row.get k).cols < col + cols
+              · -- the run of `k` would contain the end of the span
+                exfalso
+                have rf := Wr (row.get k).cols (col + cols) t0 (by omega) t2 q1 (by omega)
+                apply sp
+                rw [rf.2]; exact ⟨rf.1, t3⟩
+              · by_cases q2 : (row.get k).cols = col + cols
+                · rw [q2] at t2 ⊢
+                  have Fe := Fend (by omega)
+                  rw [q2] at t3
+                  omega
+                · obtain ⟨g1, _, g3, g4⟩ := Fgt (row.get k).cols (by omega) (by omega)
+                  rw [g1]
+                  by_cases sp2 : cI (row.get (col + cols)) = 1 ∧ (row.get k).cols < (row.get (col + cols)).cols + (row.get (row.get (col + cols)).cols).cols
+                  · exfalso
+                    have We := (W (col + cols) (by omega) (by omega)).1 sp2.1
+                    have rf := Wr (row.get (col + cols)).cols (row.get k).cols We.1 (by omega) We.2.2.1 (by omega) sp2.2
+                    omega
+                  · rw [g4 sp2]; omega
+  · -- starts: positive length inside the line
+    intro k hk0 hkn hk
+    have Wk := W k hk0 hkn
+    have ik := cI_lI (row.get k)
+    by_cases r1 : k < col
+    · obtain ⟨f1, _, f3, f4⟩ := Flt k hk0 r1
+      rw [f1] at hk
+      by_cases hcond : cI (row.get col) = 1 ∧ k = (row.get col).cols
+      · rw [f3 hcond]; omega
+      · rw [f4 hcond]; omega
+    · by_cases r2 : k = col
+      · rw [r2, Fcol]; omega
+      · by_cases r3 : k < col + cols
+        · obtain ⟨f1, _, _⟩ := Fmid k (by omega) r3
+          omega
+        · by_cases r4 : k = col + cols
+          · rw [r4] at hkn ⊢
+            obtain ⟨_, f2, f3⟩ := Fend hkn
+            have ie := cI_lI (row.get (col + cols))
+            have We := W (col + cols) (by omega) hkn
+            by_cases sp : cI (row.get (col + cols)) = 1
+            · rw [(f2 sp).2]
+              have Ws := W (row.get (col + cols)).cols
+              omega
+            · rw [(f3 (by omega)).2]; omega
+          · obtain ⟨f1, _, f3, f4⟩ := Fgt k (by omega) hkn
+            rw [f1] at hk
+            by_cases sp : cI (row.get (col + cols)) = 1 ∧ k < (row.get (col + cols)).cols + (row.get (row.get (col + cols)).cols).cols
+            · exfalso
+              have We := (W (col + cols) (by omega) (by omega)).1 sp.1
+              have rf := Wr (row.get (col + cols)).cols k We.1 (by omega) We.2.2.1 (by omega) sp.2
+              omega
+            · rw [f4 sp]; omega
+  · -- runs: the cells after a start are CONT cells pointing at it
+    intro k j hk0 hkn hk hj1 hj2
+    have Wk := W k hk0 hkn
+    have ik := cI_lI (row.get k)
+    by_cases r1 : k < col
+    · obtain ⟨f1, _, f3, f4⟩ := Flt k hk0 r1
+      rw [f1] at hk
+      have Wc := W col h0 (by omega)
+      by_cases hcond : cI (row.get col) = 1 ∧ k = (row.get col).cols
+      · rw [f3 hcond] at hj2
+        have Wc1 := Wc.1 hcond.1
+        rw [← hcond.2] at Wc1
+        obtain ⟨g1, _, g3, g4⟩ := Flt j (by omega) (by omega)
+        have rf := Wr k j hk0 hkn hk hj1 (by omega)
+        rw [g1, g4 (by omega)]; exact rf
+      · rw [f4 hcond] at hj2
+        have hle : k + (row.get k).cols ≤ col := by
+          apply Classical.byContradiction; intro hh
+          have rf := Wr k col hk0 hkn hk r1 (by omega)
+          exact hcond ⟨rf.1, rf.2.symm⟩
+        have rf := Wr k j hk0 hkn hk hj1 hj2
+        obtain ⟨g1, _, g3, g4⟩ := Flt j (by omega) (by omega)
+        rw [g1]
+        by_cases hj : cI (row.get col) = 1 ∧ j = (row.get col).cols
+        · exfalso
+          have := (Wc.1 hj.1).2.2.1
+          rw [← hj.2] at this; omega
+        · rw [g4 hj]; exact rf
+    · by_cases r2 : k = col
+      · rw [r2, Fcol] at hj2
+        rw [r2] at hj1 ⊢
+        obtain ⟨g1, _, g3⟩ := Fmid j hj1 (by omega)
+        exact ⟨g1, g3⟩
+      · by_cases r3 : k < col + cols
+        · obtain ⟨f1, _, _⟩ := Fmid k (by omega) r3
+          omega
+        · by_cases r4 : k = col + cols
+          · rw [r4] at hkn hj1 hj2 ⊢
+            obtain ⟨_, f2, f3⟩ := Fend hkn
+            have ie := cI_lI (row.get (col + cols))
+            have We := W (col + cols) (by omega) hkn
+            by_cases sp : cI (row.get (col + cols)) = 1
+            · rw [(f2 sp).2] at hj2
+              have We1 := We.1 sp
+              have Ws := W (row.get (col + cols)).cols We1.1 (by omega)
+              obtain ⟨g1, _, g3, g4⟩ := Fgt j hj1 (by omega)
+              have rf := Wr (row.get (col + cols)).cols j We1.1 (by omega) We1.2.2.1 (by omega) (by omega)
+              rw [g1, g3 ⟨sp, by omega⟩]; exact ⟨rf.1, rfl⟩
+            · have sp0 : cI (row.get (col + cols)) = 0 := by omega
+              rw [(f3 sp0).2] at hj2
+              have We0 := We.2.1 sp0
+              obtain ⟨g1, _, g3, g4⟩ := Fgt j hj1 (by omega)
+              have rf := Wr (col + cols) j (by omega) hkn sp0 hj1 hj2
+              rw [g1, g4 (fun x => sp x.1)]; exact rf
+          · obtain ⟨f1, _, f3, f4⟩ := Fgt k (by omega) hkn
+            rw [f1] at hk
+            by_cases sp : cI (row.get (col + cols)) = 1 ∧ k < (row.get (col + cols)).cols + (row.get (row.get (col + cols)).cols).cols
+            · exfalso
+              have We := (W (col + cols) (by omega) (by omega)).1 sp.1
+              have rf := Wr (row.get (col + cols)).cols k We.1 (by omega) We.2.2.1 (by omega) sp.2
+              omega
+            · rw [f4 sp] at hj2
+              have Wk0 := Wk.2.1 hk
+              have rf := Wr k j hk0 hkn hk hj1 hj2
+              obtain ⟨g1, _, g3, g4⟩ := Fgt j (by omega) (by omega)
+              rw [g1]
+              by_cases sp2 : cI (row.get (col + cols)) = 1 ∧ j < (row.get (col + cols)).cols + (row.get (row.get (col + cols)).cols).cols
+              · exfalso
+                have We := (W (col + cols) (by omega) (by omega)).1 sp2.1
+                have rf2 := Wr (row.get (col + cols)).cols j We.1 (by omega) We.2.2.1 (by omega) sp2.2
+                omega
+              · rw [g4 sp2]; exact rf
+  · -- LINE and CHAR cells are one column wide
+    intro k hk0 hkn hk
+    have Wk := W k hk0 hkn
+    have ik := cI_lI (row.get k)
+    by_cases r1 : k < col
+    · obtain ⟨_, f2, f3, f4⟩ := Flt k hk0 r1
+      rw [f2] at hk
+      by_cases hcond : cI (row.get col) = 1 ∧ k = (row.get col).cols
+      · exfalso
+        have Wc1 := (W col h0 (by omega)).1 hcond.1
+        rw [← hcond.2] at Wc1
+        omega
+      · rw [f4 hcond]; omega
+    · by_cases r2 : k = col
+      · rw [r2, Fcol] at hk ⊢; omega
+      · by_cases r3 : k < col + cols
+        · obtain ⟨_, f2, _⟩ := Fmid k (by omega) r3
+          omega
+        · by_cases r4 : k = col + cols
+          · rw [r4] at hkn hk ⊢
+            obtain ⟨_, f2, f3⟩ := Fend hkn
+            have ie := cI_lI (row.get (col + cols))
+            have We := W (col + cols) (by omega) hkn
+            by_cases sp : cI (row.get (col + cols)) = 1
+            · have := (f2 sp).1; omega
+            · have sp0 : cI (row.get (col + cols)) = 0 := by omega
+              rw [(f3 sp0).1] at hk
+              rw [(f3 sp0).2]; omega
+          · obtain ⟨_, f2, f3, f4⟩ := Fgt k (by omega) hkn
+            rw [f2] at hk
+            by_cases sp : cI (row.get (col + cols)) = 1 ∧ k < (row.get (col + cols)).cols + (row.get (row.get (col + cols)).cols).cols
+            · exfalso
+              have We := (W (col + cols) (by omega) (by omega)).1 sp.1
+              have rf := Wr (row.get (col + cols)).cols k We.1 (by omega) We.2.2.1 (by omega) sp.2
+              omega
+            · rw [f4 sp]; omega
+
 end span2
 
 end Tickit.RB
